@@ -56,6 +56,22 @@ CLAIMED = {
         design="§4 C10", technique="source-to-Coq translation + Coq proof (Coquelicot RInt, field) + Interval-certified samples + model/implementation correspondence",
         note="change of variables to polar/spherical coordinates not proved; isoperimetric inequality and Legendre's area formula not proved (quadrature + Interval samples); "
              "known finding planar-moments-parallel-axis-swapped (pinned by the suite)."),
+    "C07": dict(
+        text="Theorems: neighbour lists are exactly 'distinct faces sharing an edge' and the relation is symmetric (any face list); certificate soundness: a "
+             "negative support number puts every other vertex strictly inside the face plane, the planarity number bounds every face vertex; index-level "
+             "closedness implies the closed-chain hypothesis. Partial: Euler's relation and correctness of the angular sort are not proved - instead the "
+             "full certificate (planar faces, strict support => faces are the merged hull facets, counter-clockwise turns, edge-manifold, V-E+F=2) is "
+             "evaluated exactly by the model on the implementation's faces for ConvexPolyhedron (2 orders), Polyhedron.sort_faces on scrambled/relabelled "
+             "faces and merge_faces on randomly wound triangulations; neighbours, edges, num_edges, edge vectors/lengths, unit outward equations compared.",
+        design="§4 C07", technique="Coq proof (list/boolean reflection lemmas, fold bounds) + exact per-instance certificate + model/implementation correspondence",
+        note="partial as stated; qhull/kabsch oracles; tolerances 1e-12 (unit normals) / 1e-9 size (planarity of rounded inputs)."),
+    "C11": dict(
+        text="Theorems over R: the code's edge-loop formulas for ConvexSpheropolyhedron volume/area equal the Steiner polynomials V+Sr+4 pi M r^2+4/3 pi r^3 "
+             "and S+8 pi M r+4 pi r^2 with M = sum L(pi-phi)/(8 pi); mean curvature M+r; r=0 coincides with the core; spheropolygon area/perimeter; "
+             "dihedral = pi - angle between outward normals in [0,pi]. Correspondence: exact per-edge data and core V,S,A,P from the Coq model, acos/sqrt/pi "
+             "finishing in binary64, against get_dihedral, mean_curvature, tau, asphericity, iq and the rounded shapes for radii 0 and 2^-10..2^7 sizes.",
+        design="§4 C11", technique="Coq proof (sum algebra over edge lists, acos identities) + model/implementation correspondence",
+        note="Steiner polynomial is the specification (Minkowski-sum measure not proved); formulas hand-modelled (loops are outside the translator)."),
 }
 
 REASON_TODO = "check not built yet (work in progress this round)"
